@@ -678,6 +678,12 @@ def getitem(t, key):
     key = tuple(_as_index_tensor(k) for k in key)
     # boolean mask or fancy index
     if len(key) >= 1 and isinstance(key[0], Tensor) or any(isinstance(k, Tensor) for k in key):
+        if any(k is None for k in key):
+            # new axes next to an index list: index first, insert the axes afterwards
+            core = tuple(k for k in key if k is not None)
+            first = fancy_get(t, core)
+            post = tuple(None if k is None else slice(None) for k in key)
+            return getitem(first, post)
         return fancy_get(t, key)
     if any(k is Ellipsis for k in key):
         raise Unsupported("Ellipsis index")
@@ -755,6 +761,20 @@ def fancy_get(t, key):
 def fancy_set(t, idx, val):
     """t[idx] = val for a 1-d array and an integer index list of concrete length (numpy: later entries win)"""
     m = unwrap(idx.shape[0])
+    if t.ndim == 1 and idx.ndim == 1 and getattr(idx, "member", None) is not None:
+        # an index list with a known inverse (position -> (is a member, its place in the list)); entries are distinct
+        old = t.copy()
+        vt = Tensor.lift(val)
+        vt = vt.frozen() if vt is not None else None
+        member = idx.member
+
+        def fn_m(i):
+            cond, place = member(i)
+            v = val if vt is None else vt.at(place)
+            return S.ite(cond, v, old.at(i))
+
+        t.set_fn(fn_m, "fancy setitem")
+        return
     if t.ndim != 1 or idx.ndim != 1 or not isinstance(m, int):
         raise Unsupported("fancy assignment form (needs 1-d target and concrete-length index list)")
     old = t.copy()
